@@ -15,6 +15,7 @@ import (
 	"net"
 	"os"
 	"path/filepath"
+	"strings"
 	"sync"
 	"syscall"
 
@@ -24,6 +25,8 @@ import (
 	"github.com/hugelgupf/p9/fsimpl/localfs"
 	"github.com/hugelgupf/p9/fsimpl/staticfs"
 	"github.com/hugelgupf/p9/fsimpl/qids"
+	"github.com/hugelgupf/p9/fsimpl/templatefs"
+	"github.com/hugelgupf/p9/linux"
 	"github.com/hugelgupf/p9/p9"
 
 	"verifharness/peer"
@@ -254,6 +257,147 @@ func concurrent(o *out, goroutines, files int) {
 	wg.Wait()
 }
 
+// memFS is a small read-only tree whose Files implement WalkGetAttr themselves (the backends in the
+// repository all answer ENOSYS there, so the server's and the QID mapper's native path is otherwise
+// never taken).  Raw QID paths are base + index: two mounts of the same shape overlap on purpose.
+type memFS struct{ base uint64 }
+
+type memFile struct {
+	templatefs.NoopFile
+	fs   *memFS
+	path []string // "" root, else components
+}
+
+func (m *memFS) Attach() (p9.File, error) { return &memFile{fs: m}, nil }
+
+var memTree = map[string]bool{"": true, "a": true, "a/x": false, "b": true, "b/x": false, "f": false}
+
+func (f *memFile) key() string { return strings.Join(f.path, "/") }
+func (f *memFile) qid() p9.QID {
+	keys := []string{"", "a", "a/x", "b", "b/x", "f"}
+	for i, k := range keys {
+		if k == f.key() {
+			t := p9.TypeRegular
+			if memTree[k] {
+				t = p9.TypeDir
+			}
+			return p9.QID{Type: t, Path: f.fs.base + uint64(i)}
+		}
+	}
+	return p9.QID{}
+}
+func (f *memFile) attr() p9.Attr {
+	if memTree[f.key()] {
+		return p9.Attr{Mode: p9.ModeDirectory | 0o755}
+	}
+	return p9.Attr{Mode: p9.ModeRegular | 0o644}
+}
+func (f *memFile) step(names []string) ([]p9.QID, *memFile, error) {
+	cur := &memFile{fs: f.fs, path: append([]string{}, f.path...)}
+	var qs []p9.QID
+	for _, n := range names {
+		cur = &memFile{fs: f.fs, path: append(append([]string{}, cur.path...), n)}
+		if _, ok := memTree[cur.key()]; !ok {
+			return nil, nil, linux.ENOENT
+		}
+		qs = append(qs, cur.qid())
+	}
+	return qs, cur, nil
+}
+func (f *memFile) Walk(names []string) ([]p9.QID, p9.File, error) {
+	qs, nf, err := f.step(names)
+	if err != nil {
+		return nil, nil, err
+	}
+	return qs, nf, nil
+}
+func (f *memFile) WalkGetAttr(names []string) ([]p9.QID, p9.File, p9.AttrMask, p9.Attr, error) {
+	qs, nf, err := f.step(names)
+	if err != nil {
+		return nil, nil, p9.AttrMask{}, p9.Attr{}, err
+	}
+	return qs, nf, p9.AttrMaskAll, nf.attr(), nil
+}
+func (f *memFile) GetAttr(p9.AttrMask) (p9.QID, p9.AttrMask, p9.Attr, error) {
+	return f.qid(), p9.AttrMaskAll, f.attr(), nil
+}
+func (f *memFile) Open(p9.OpenFlags) (p9.QID, uint32, error) { return f.qid(), 0, nil }
+
+// nativeWGA: composefs over two memFS mounts, visited through client and server by Walk, WalkGetAttr with
+// names and WalkGetAttr without names (a clone): whichever way a file is reached its QID path is the
+// same (stable) and no two files share one (injective) - Qid.tla's Stable / Injective for the mapper
+// when the backend answers WalkGetAttr itself.
+func nativeWGA(o *out) {
+	cfs, err := composefs.New(composefs.WithMount("m1", &memFS{base: 100}), composefs.WithMount("m2", &memFS{base: 100}))
+	if err != nil {
+		o.Findings = append(o.Findings, "native WalkGetAttr: composefs: "+err.Error())
+		return
+	}
+	a, b := peer.NewDuplexPair()
+	go p9.NewServer(cfs).Handle(b, b)
+	cl, err := p9.NewClient(a)
+	if err != nil {
+		o.Findings = append(o.Findings, "native WalkGetAttr: "+err.Error())
+		return
+	}
+	defer cl.Close()
+	root, err := cl.Attach("")
+	if err != nil {
+		o.Findings = append(o.Findings, "native WalkGetAttr: attach: "+err.Error())
+		return
+	}
+	seen := map[string]uint64{}
+	owner := map[uint64]string{}
+	note := func(key, how string, q p9.QID) {
+		o.Lookups++
+		if old, ok := seen[key]; ok && old != q.Path {
+			o.Findings = append(o.Findings, fmt.Sprintf("backend with native WalkGetAttr: %s has QID path %d when reached by %s, %d before (Qid.tla Stable)", key, q.Path, how, old))
+		}
+		seen[key] = q.Path
+		if who, ok := owner[q.Path]; ok && who != key {
+			o.Findings = append(o.Findings, fmt.Sprintf("backend with native WalkGetAttr: %s (by %s) and %s share QID path %d (Qid.tla Injective)", key, how, who, q.Path))
+		}
+		owner[q.Path] = key
+	}
+	for _, m := range []string{"m1", "m2"} {
+		for _, rel := range [][]string{{}, {"a"}, {"a", "x"}, {"b"}, {"b", "x"}, {"f"}} {
+			full := append([]string{m}, rel...)
+			key := strings.Join(full, "/")
+			qs, f1, err := root.Walk(full)
+			if err != nil {
+				o.Findings = append(o.Findings, fmt.Sprintf("native WalkGetAttr: walk %v: %v", full, err))
+				return
+			}
+			note(key, "Walk", qs[len(qs)-1])
+			if q, _, _, e := f1.GetAttr(p9.AttrMaskAll); e == nil {
+				note(key, "GetAttr after Walk", q)
+			}
+			qs2, f2, _, _, err := root.WalkGetAttr(full)
+			if err == nil {
+				note(key, "WalkGetAttr", qs2[len(qs2)-1])
+				if q, _, _, e := f2.GetAttr(p9.AttrMaskAll); e == nil {
+					note(key, "GetAttr after WalkGetAttr", q)
+				}
+				// a clone of it, made without names
+				if _, f3, _, _, e := f2.WalkGetAttr(nil); e == nil {
+					if q, _, _, e := f3.GetAttr(p9.AttrMaskAll); e == nil {
+						note(key, "GetAttr on a zero-name WalkGetAttr clone", q)
+					}
+					// and what is reached FROM the clone
+					if len(rel) == 1 && memTree[rel[0]] {
+						if qs4, _, e := f3.Walk([]string{"x"}); e == nil {
+							note(key+"/x", "Walk from a zero-name WalkGetAttr clone", qs4[0])
+						}
+					}
+					f3.Close()
+				}
+				f2.Close()
+			}
+			f1.Close()
+		}
+	}
+}
+
 // sameKey forces the race Qid.tla explores (two callers both missing on the same fresh source):
 // per round all goroutines are released at once on one never-seen source path; every caller must
 // get the same path, later lookups must return it again, and no two sources may share a path.
@@ -311,6 +455,7 @@ func main() {
 	}
 	concurrent(o, *gor, *files)
 	sameKey(o, 3000, 8)
+	nativeWGA(o)
 	if len(o.Findings) > 30 {
 		o.Findings = o.Findings[:30]
 	}
